@@ -13,7 +13,7 @@ import numpy as np
 
 from . import common, tlc
 from . import absblocks as ab
-from .values import Values
+from .values import Values, ChanZeroValues
 
 SPEC_FILES = ["TdfLayout.tla", "TdfCodec.tla", "TdfCodecMC.tla"]
 ALL_KINDS = ["Data3D", "EMG", "ForceTorque3D", "ForcePlatformsData", "ForcePlatformsCalibration", "Data2D",
@@ -136,16 +136,18 @@ def morph(kind, fmt, b_from, b_to, vals, style):
     return obj
 
 
-def evaluate(vec, r, props, style=0, morph_from=None):
+def evaluate(vec, r, props, style=0, morph_from=None, huge=False, chan_zero=None):
     """-> list of (clause, detail) for the properties asked for"""
     kind, fmt, b, toks = vec["kind"], vec["fmt"], vec["b"], vec["toks"]
     out = []
     if kind == "Header":
         return out  # the header is written by Tdf.new and read by Tdf.__enter__: checked at file level (codec_file)
-    vals = Values(r)
+    vals = Values(r, huge=huge) if chan_zero is None else ChanZeroValues(r, chan_zero)
     exp = ab.pack(toks, vals)
     try:
         obj = morph(kind, fmt, morph_from, b, vals, style) if morph_from is not None else ab.gamma(kind, fmt, b, vals, style)
+        if style % 2 == 0 and kind != "Entry":
+            obj.nBytes        # the container asks for the size first and encodes afterwards
         enc = ab.encode(obj)
     except Exception as x:  # noqa: BLE001
         return [("C01:valid_block_refused", f"{type(x).__name__}: {x}")] if "C01" in props else []
@@ -235,6 +237,17 @@ def evaluate(vec, r, props, style=0, morph_from=None):
         except Exception as x:  # noqa: BLE001
             out.append(("C14:equal_content_unequal", f"{type(x).__name__}: {x}"))
         for m in vec.get("mutants", []):
+            if "startTime" in b and m.get("startTime") != b["startTime"]:
+                # a header scalar that differs in the last bit is a different block (no tolerance is
+                # granted to header scalars, only to samples)
+                try:
+                    x1 = ab.gamma(kind, fmt, b, Values(r, adjacent=True), style)
+                    x2 = ab.gamma(kind, fmt, m, Values(r, adjacent=True), style)
+                    PAIRS[0] += 1
+                    if bool(x1 == x2) or bool(x2 == x1):
+                        out.append(("C14:different_content_equal", "start times that are adjacent float32 values compare equal"))
+                except Exception as x:  # noqa: BLE001
+                    out.append(("C14:comparison_raises", f"{type(x).__name__}: {x}"))
             for zero_new in (False, True):
                 try:
                     other = ab.gamma(kind, fmt, m, Values(r, specials=False, zero_new=zero_new), style)
@@ -476,7 +489,8 @@ def check(prop, tier, seed, replay=None):
             else:
                 bad = [(c, d) for c, d, _ in bigdata.header_campaign({prop}, seed)[0]]
         else:
-            bad = evaluate(rp["vector"], rp["r"], {prop}, rp.get("style", 0), morph_from=rp.get("morph_from"))
+            bad = evaluate(rp["vector"], rp["r"], {prop}, rp.get("style", 0), morph_from=rp.get("morph_from"),
+                           huge=rp.get("huge", False), chan_zero=rp.get("chan_zero"))
         run.cov["evaluations"] = 1
         run.cov["distinct_nontrivial"] = 2
         run.sample(dict(kind=rp.get("vector", {}).get("kind", rp.get("kind")), b=rp.get("vector", {}).get("b")))
@@ -513,6 +527,30 @@ def check(prop, tier, seed, replay=None):
                 clause, detail = mine[0]
                 run.violation(f"{clause} on {vec['kind']} format {vec['fmt']}: {detail}",
                               dict(kind="codec", vector=vec, r=r, style=(vi + r) % 6, clauses=mine))
+        if not mutants and any(t.get("p") in ("i16", "u16", "u15") for t in vec["toks"]):
+            # channel / camera number 0 at the first, second, ... position of the map
+            nchan = sum(1 for t in vec["toks"] if t.get("p") in ("i16", "u16", "u15"))
+            k = (vi + seed) % nchan
+            n_eval += 1
+            try:
+                bad = evaluate(vec, rs[0], {prop}, style=vi % 6, chan_zero=k)
+            except Exception as x:  # noqa: BLE001
+                bad = [(f"{prop}:library_raised", f"{type(x).__name__}: {x} (channel 0)")]
+            mine = [c for c in bad if c[0].startswith(prop + ":")]
+            if mine:
+                run.violation(f"{mine[0][0]} on {vec['kind']} format {vec['fmt']} with channel number 0 at position {k}: {mine[0][1]}",
+                              dict(kind="codec", vector=vec, r=rs[0], style=vi % 6, chan_zero=k, clauses=mine))
+        if vec["kind"] in RLE_KINDS and not mutants and vi % 3 == seed % 3:
+            # every sample near the top of the float range: sums of two samples overflow
+            n_eval += 1
+            try:
+                bad = evaluate(vec, rs[0], {prop}, style=vi % 6, huge=True)
+            except Exception as x:  # noqa: BLE001
+                bad = [(f"{prop}:library_raised", f"{type(x).__name__}: {x} (huge samples)")]
+            mine = [c for c in bad if c[0].startswith(prop + ":")]
+            if mine:
+                run.violation(f"{mine[0][0]} on {vec['kind']} format {vec['fmt']} with samples near the top of the float32 range: {mine[0][1]}",
+                              dict(kind="codec", vector=vec, r=rs[0], style=vi % 6, huge=True, clauses=mine))
         if vi % 200 == 0:
             run.sample(dict(kind=vec["kind"], fmt=vec["fmt"], b=vec["b"], size=vec["size"], n_tokens=len(vec["toks"]),
                             n_mutants=len(vec.get("mutants", []))))
